@@ -13,7 +13,8 @@ TRUSTED_BASE = [
     "extraction + driver.ml",
 ]
 ASSUMPTIONS = ["scores are integers or half-integers (scaled by 2 in the model)"]
-RULE = ("pairs of sequences over {A,B,C} with lengths 0..5 x substitution in {default, dictionary-based (opt max/min) "
+RULE = ("pairs of sequences over {A,B,C} with lengths 0..5 x substitution in {default, dictionary-based (opt max/min; "
+        "symmetric or directional: both (a,b) and (b,a) present with different scores) "
         "with gap in {1, 2, 0.5}} x all 6 traceback orders; value/matrix vs the extracted model, value vs brute-force "
         "maximum over all global alignments, alignment strings: equal length, degap = inputs, no gap/gap column, "
         "score = value")
@@ -35,7 +36,11 @@ def gen_cases(rng, tier):
             sub = None
         else:
             mat = {}
-            for a, b in itertools.combinations_with_replacement("ABC", 2):
+            # both orientations (A,B) and (B,A) may be present with different scores: a directional scoring, for
+            # which substitution(s1[i], s2[j]) and substitution(s2[j], s1[i]) differ
+            pairs = list(itertools.product("ABC", repeat=2)) if rng.random() < 0.5 else \
+                list(itertools.combinations_with_replacement("ABC", 2))
+            for a, b in pairs:
                 if rng.random() < 0.6:
                     mat[a + b] = rng.randint(-3, 3)
             sub = {"matrix": mat, "gap": rng.choice([1, 1, 2, 0.5]), "opt": rng.choice(["max", "max", "min"])}
